@@ -1,7 +1,7 @@
 //! C08 — 8-bit discretised scores never under-estimate the real score.
 
 use lightmotif::abc::{Alphabet, Dna, Protein};
-use lightmotif::num::U32;
+use lightmotif::num::{PositiveLength, U32, U48, U64};
 use lightmotif::pli::{Pipeline, Score, Stripe};
 use lightmotif::pwm::DiscreteMatrix;
 use lightmotif::scores::StripedScores;
@@ -103,7 +103,7 @@ pub fn is_u8_add_overflow(loc: &str, msg: &str) -> bool {
 
 /// Does any cell the scalar kernel computes - valid positions AND the padding positions past the end of the
 /// sequence, which it scores all the same - add up to more than 255?
-pub fn any_scored_cell_overflows<A: Alphabet>(dm: &DiscreteMatrix<A>, striped: &StripedSequence<A, U32>) -> bool {
+pub fn any_scored_cell_overflows<A: Alphabet, C: PositiveLength>(dm: &DiscreteMatrix<A>, striped: &StripedSequence<A, C>) -> bool {
     use lightmotif::abc::Symbol;
     let m = dm.matrix().rows();
     let rows = striped.matrix().rows() - striped.wrap();
@@ -111,7 +111,7 @@ pub fn any_scored_cell_overflows<A: Alphabet>(dm: &DiscreteMatrix<A>, striped: &
         return false;
     }
     for row in 0..rows {
-        for col in 0..32 {
+        for col in 0..C::USIZE {
             let mut sum = 0u32;
             for j in 0..m {
                 sum += dm.matrix()[j][striped.matrix()[row + j][col].as_index()] as u32;
@@ -139,7 +139,7 @@ pub fn overflow_checked_build() -> bool {
 /// Score all positions with a scalar-kernel backend. `Ok(None)`: the kernel panicked on the u8 addition, some
 /// window of the case sums above 255 and that class is an excluded known finding (the backend is skipped for
 /// this case); `Err`: a failure to report.
-fn scalar_scores(name: &str, any_overflow: bool, cx: &Cx, f: impl FnOnce() -> StripedScores<u8, U32>) -> Result<Option<StripedScores<u8, U32>>, Failure> {
+fn scalar_scores<C: PositiveLength>(name: &str, any_overflow: bool, cx: &Cx, f: impl FnOnce() -> StripedScores<u8, C>) -> Result<Option<StripedScores<u8, C>>, Failure> {
     match catch_inner(f) {
         Ok(sc) => Ok(Some(sc)),
         Err((loc, msg)) => {
@@ -309,6 +309,72 @@ where
     (None, c.excluded_positions)
 }
 
+/// The generic and the SSE2 pipeline on a layout of `C` columns (48 / 64: SSE2 accepts any multiple of 16).
+fn run_other_layout<A: Alphabet, C: PositiveLength>(case: &Case, cx: &Cx, info: &mut CaseInfo) -> (Option<Failure>, u64)
+where
+    Pipeline<A, lightmotif::pli::platform::Generic>: Score<u8, A, C>,
+    Pipeline<A, lightmotif::pli::platform::Sse2>: Score<u8, A, C>,
+{
+    let k = case.abc.k();
+    let mat = effective_mat(case);
+    let cells = mat.cells();
+    let m = cells.len();
+    let mut idx = case.seq.expand(k);
+    embed_word(&cells, k, &case.embed, &mut idx);
+    let pssm = build_pssm::<A>(&mat);
+    let dm: DiscreteMatrix<A> = pssm.to_discrete();
+    let symbols = syms::<A>(&idx);
+    let mut striped: StripedSequence<A, C> = Pipeline::<A, _>::generic().stripe(&symbols);
+    striped.configure_wrap(m - 1 + case.extra_wrap);
+    let r32 = ref_scores_f32(&cells, &idx);
+    let n = r32.len();
+    if n == 0 {
+        return (None, 0);
+    }
+    let dcells: Vec<Vec<u32>> = (0..m).map(|i| dm.matrix()[i].iter().map(|&x| x as u32).collect()).collect();
+    let sums: Vec<u32> = (0..n).map(|i| (0..m).map(|j| dcells[j][idx[i + j] as usize]).sum()).collect();
+    let thresholds: Vec<f32> = case.thresholds.iter().map(|&(p, d)| r32[p % n] + d as f32 * 1e-3).filter(|t| t.is_finite()).collect();
+    let scale = |s: f32| dm.scale(s);
+    let any = any_scored_cell_overflows(&dm, &striped);
+    let mut c = Ctx { cx, info, excluded_positions: 0 };
+    // the signatures of the known finding name the 32-column entry points; other layouts use their own names
+    // but the same input class, and are skipped / reported through the generic kernel's signature
+    for (name, which) in [("generic", 0u8), ("sse2", 1u8)] {
+        let known = format!("generic:underestimate:{}", WRAP_CLASS);
+        let res = catch_inner(|| -> StripedScores<u8, C> {
+            if which == 0 {
+                Pipeline::<A, _>::generic().score(&dm, &striped)
+            } else {
+                Pipeline::<A, _>::sse2().unwrap().score(&dm, &striped)
+            }
+        });
+        let sc = match res {
+            Ok(sc) => sc,
+            Err((loc, msg)) => {
+                if is_u8_add_overflow(&loc, &msg) && any && cx.is_excluded(&known) {
+                    c.excluded_positions += 1;
+                    continue;
+                }
+                let sig = if is_u8_add_overflow(&loc, &msg) && any { known } else { panic_sig(&loc, &msg) };
+                return (Some(Failure::new(sig, format!("{} on {} columns: panicked at {}: {}", name, C::USIZE, loc, msg))), c.excluded_positions);
+            }
+        };
+        if sc.max_index() != n {
+            return (Some(Failure::new(format!("{}[C={}]:count", name, C::USIZE), format!("u8 scores have max_index {} != {}", sc.max_index(), n))), c.excluded_positions);
+        }
+        let f = |i: usize| sc[i];
+        // same oracle; the known wrap of the scalar kernel (sums above 255) is excluded under the generic signature
+        if let Some(mut fl) = judge("generic", &f, &scale, &r32, &sums, &thresholds, true, &mut c) {
+            if !fl.sig.ends_with(WRAP_CLASS) {
+                fl.sig = fl.sig.replacen("generic", &format!("{}[C={}]", name, C::USIZE), 1);
+            }
+            fl.msg = format!("{} on {} columns: {}", name, C::USIZE, fl.msg);
+            return (Some(fl), c.excluded_positions);
+        }
+    }
+    (None, c.excluded_positions)
+}
+
 fn run_dna_simd(case: &Case, cx: &Cx, info: &mut CaseInfo) -> (Option<Failure>, u64) {
     let k = 5;
     let mat = effective_mat(case);
@@ -368,7 +434,7 @@ impl Sub for Over {
         "overestimate"
     }
     fn rule(&self) -> &'static str {
-        "DNA (generic, avx2, dispatch forced to each arm, DiscreteMatrix::score_position) and protein (generic) x matrices with finite non-wildcard cells (library / finite / small-int / near-tie), widths biased to >= 10 x sequences with the consensus or anti-consensus word embedded, wildcard windows; oracle b_i >= scale(r_i) strictly, and r_i >= t => b_i >= scale(t) for thresholds at/near real scores; non-trivial = some window's exact integer cell sum exceeds 255"
+        "DNA (generic, avx2, dispatch forced to each arm, DiscreteMatrix::score_position on 32 columns; generic and sse2 on 48 or 64 columns) and protein (generic) x matrices with finite non-wildcard cells (library / finite / small-int / near-tie), widths biased to >= 10 x sequences with the consensus or anti-consensus word embedded, wildcard windows; oracle b_i >= scale(r_i) strictly, and r_i >= t => b_i >= scale(t) for thresholds at/near real scores; non-trivial = some window's exact integer cell sum exceeds 255"
     }
     fn cases(&self, tier: Tier) -> u64 {
         tier.pick(80_000, 2_000_000)
@@ -392,7 +458,17 @@ impl Sub for Over {
                     (f, e)
                 } else {
                     let (f2, e2) = run_dna_simd(case, cx, &mut info);
-                    (f2, e + e2)
+                    if f2.is_some() {
+                        (f2, e + e2)
+                    } else if case.thresholds.len() % 2 == 0 {
+                        let (f3, e3) = run_other_layout::<Dna, U64>(case, cx, &mut info);
+                        info.class("also-64-columns(generic,sse2)");
+                        (f3, e + e2 + e3)
+                    } else {
+                        let (f3, e3) = run_other_layout::<Dna, U48>(case, cx, &mut info);
+                        info.class("also-48-columns(generic,sse2)");
+                        (f3, e + e2 + e3)
+                    }
                 }
             }
             Abc::Protein => {
